@@ -232,24 +232,85 @@ func c04Random(c *vc.Ctx, batch, n int) {
 	c.Count("random_trees", n)
 }
 
+// c04Deep judges synthetic paths of every length around the width of the position (a path need not come from a block:
+// the function is called with whatever a message carries): for depth d and a 32-bit position p the root is the fold of a
+// random leaf up d random siblings steered by the bits of p (bits beyond the 32nd are zero).
+func c04Deep(c *vc.Ctx, batch int) {
+	r := world.NewRand(c.Seed, "c04deep", batch)
+	fold := func(leaf, path []byte, pos uint32) []byte {
+		cur := append([]byte(nil), leaf...)
+		p := pos
+		for i := 0; i < len(path)/32; i++ {
+			sib := path[i*32 : (i+1)*32]
+			var cat []byte
+			if p&1 == 0 {
+				cat = append(append(cat, cur...), sib...)
+			} else {
+				cat = append(append(cat, sib...), cur...)
+			}
+			h1 := sha256.Sum256(cat)
+			h2 := sha256.Sum256(h1[:])
+			cur = h2[:]
+			p >>= 1
+		}
+		return cur
+	}
+	for _, d := range []int{13, 20, 29, 30, 31, 32, 33, 34, 40, 63, 64, 65, 100} {
+		for k := 0; k < c.Pick(6, 40); k++ {
+			leaf := make([]byte, 32)
+			path := make([]byte, 32*d)
+			r.Read(leaf)
+			r.Read(path)
+			var positions []uint32
+			positions = append(positions, 0, 1, 1<<31, ^uint32(0), r.Uint32())
+			if d < 32 {
+				positions = append(positions, uint32(1)<<uint(d)-1, uint32(r.Int63n(int64(1)<<uint(d))))
+			}
+			for _, p := range positions {
+				inRange := d >= 32 || uint64(p) < uint64(1)<<uint(d)
+				q := p
+				if !inRange {
+					q = p & (uint32(1)<<uint(d) - 1) // what an alias folds like
+				}
+				root := fold(leaf, path, q)
+				c04Judge(c, -d, 0, "deep-genuine-fold", leaf, root, path, p, q, d)
+				// one sibling changed: no longer the fold
+				bad := append([]byte(nil), path...)
+				bad[r.Intn(len(bad))] ^= 0x40
+				c04Judge(c, -d, 0, "deep-sibling-changed", leaf, root, bad, p, q, d)
+				// the other child order at one level inside the position's width
+				if d >= 1 {
+					bit := uint(r.Intn(min(d, 32)))
+					c04Judge(c, -d, 0, "deep-position-bit-flipped", leaf, root, path, p^(1<<bit), q, d)
+				}
+			}
+			c.Count("deep_paths", 1)
+		}
+	}
+}
+
 func init() {
 	quickRand, thoroughRand := 16, 400
 	vc.Register(&vc.Check{
 		ID: "C04", Title: "Merkle inclusion proofs are sound and position-binding", Level: "exploration",
 		Rule: "bounded-exhaustive differential of VerifyMerkelProof against a reference written from the statement: every tree size in {1..33,63,64,65}, " +
 			"every leaf, every claimed position in [0,4*2^depth) plus aliases pos+2^k and 2^31/2^32-1, path variants genuine/truncated/extended/swapped/bit-flipped/ragged/empty and wrong leaf/root sizes; " +
-			"then seeded random trees (size<=300) with mutated positions and paths. Non-trivial = the claimed position or the path differs from the genuine one; " +
+			"then seeded random trees (size<=300) with mutated positions and paths; then synthetic paths of 13..100 nodes (around and beyond the 32-bit width of the position) whose root is the fold of a random leaf under positions 0, 1, 2^31, 2^32-1, 2^d-1 and random ones, each also with one sibling changed and with one position bit flipped. Non-trivial = the claimed position or the path differs from the genuine one; " +
 			"distinct = (tree size, variant, position class, verdict).",
 		Assume: []string{"crypto/sha256 of the Go standard library is correct (the reference and the tree builder use it, not pkg/crypto)"},
 		Cases: func(tier string) int {
 			if tier == "thorough" {
-				return len(c04Sizes) + thoroughRand
+				return len(c04Sizes) + thoroughRand + 16
 			}
-			return len(c04Sizes) + quickRand
+			return len(c04Sizes) + quickRand + 4
 		},
 		Run: func(c *vc.Ctx, i int) {
 			if i < len(c04Sizes) {
 				c04Enumerate(c, c04Sizes[i])
+				return
+			}
+			if nr := map[string]int{"quick": quickRand, "thorough": thoroughRand}[c.Tier]; i >= len(c04Sizes)+nr {
+				c04Deep(c, i-len(c04Sizes)-nr)
 				return
 			}
 			n := 260
